@@ -280,6 +280,84 @@ def rule_ws(ctx):
         ctx.fail(r, f, "recvmax test missing", f.line, "ws_read_cb no longer compares the message total with recvmax")
 
 
+
+def rule_r6(ctx):
+    r = ctx.rule("C11.R6", "T3", "park before serve: where a function stores the caller's aio into a field of an endpoint and calls, in "
+                 "the same critical section, a helper that completes whatever that field holds, the store comes first -- a helper "
+                 "that runs before the store finds nothing to complete and the waiting connection is never handed over", floor=3)
+    prog = ctx.prog
+    n = 0
+    for f in prog.functions:
+        if f.cfg_failed or len(f.params) < 2:
+            continue
+        aios = {p_["n"] for p_ in f.params if "aio" in (p_.get("t") or "")}
+        for t in f.assigns():
+            lhs, rhs = t.node["lhs"], f.expand(t.node["rhs"])
+            if lhs.get("k") != "mem" or rhs is None or rhs.get("k") != "var" or rhs["n"] not in aios:
+                continue
+            fld = last_field(lhs)
+            base = lhs["b"]
+            for c in f.calls():
+                h = prog.resolve(f, c.node["fn"]) if c.node.get("fn") else None
+                if h is None or h.cfg_failed or h.file != f.file or h is f:
+                    continue
+                if not any(same_expr(f.expand(a), base) for a in c.node["args"] if a is not None):
+                    continue
+                reads = [x for x in h.sites() if x.node.get("k") == "mem" and last_field(x.node) == fld]
+                fins = list(h.calls(("nni_aio_finish", "nni_aio_finish_error", "nni_aio_finish_sync")))
+                if not reads or not fins:
+                    continue
+                n += 1
+                if f.dominated_by((c.b, c.i), blocked=lambda b, i, e: (b, i) == (t.b, t.i)):
+                    r.ob(f, "%s stored before %s" % (fld, h.name))
+                else:
+                    ctx.fail(r, f, "%s called before %s is stored" % (h.name, fld), c.line,
+                             "%s completes the operation held in %s, but %s calls it at line %s before storing the caller's aio "
+                             "there (line %s): a connection that is already waiting is not handed over until some later event"
+                             % (h.name, fld, f.name, c.line, t.line))
+    if n < 3:
+        raise AnalysisBroken("only %d park-then-serve sites found" % n)
+
+
+
+def rule_r8(ctx):
+    r = ctx.rule("C11.R8", "T3", "udp: the payload length handed to the DATA handler is the datagram size minus the SP/UDP header: "
+                 "between n = nng_aio_count(aio) and udp_recv_data(.., n, ..) the header size is subtracted, on the edge that "
+                 "established n >= sizeof(header)", floor=2)
+    f = ctx.prog.fn("udp_rx_cb", "transport/udp/udp.c")
+    if f is None:
+        raise AnalysisBroken("udp transport not in the build")
+    calls = G.need_sites(list(f.calls("udp_recv_data")), "udp_recv_data", f)
+    for c in calls:
+        nv = None
+        for a in c.node["args"]:
+            a = f.expand(a)
+            if a is not None and a.get("k") == "var" and any(x is not None and x.get("k") == "call" and x.get("fn") in
+                                                              ("nng_aio_count", "nni_aio_count") for _, x in G.var_defs(f, a["n"])):
+                nv = a["n"]
+        if nv is None:
+            ctx.fail(r, f, "payload length not derived from the datagram size", c.line,
+                     "udp_recv_data is not given a length that comes from nng_aio_count(aio)")
+            continue
+        subs = [t for t in f.assigns() if t.node["lhs"].get("k") == "var" and t.node["lhs"]["n"] == nv and
+                ((t.node.get("op") == "-=" and f.expand(t.node["rhs"]).get("k") == "sizeof") or
+                 (t.node.get("op") == "=" and any(m.get("k") == "bin" and m["op"] == "-" and m["rhs"].get("k") == "sizeof"
+                                                    for m in walk(f.expand(t.node["rhs"])))))]
+        big = G.rel_edges(f, lambda n: (n.get("k") == "var" and n["n"] == nv) or
+                          (n.get("k") == "call" and n.get("fn") in ("nng_aio_count", "nni_aio_count")),
+                          lambda n: n.get("k") == "sizeof", ">=")
+        if subs and f.dominated_by((c.b, c.i), blocked=lambda b, i, e: (b, i) in G.positions(subs)):
+            r.ob(f, "header size subtracted before the DATA handler")
+        else:
+            ctx.fail(r, f, "header size not subtracted from the payload length", c.line,
+                     "udp_recv_data is called with the full datagram size: a peer can claim up to sizeof(header) payload bytes it "
+                     "never sent, and stale receive-buffer bytes of another peer are delivered")
+        if big and all(G.dominated(f, (t.b, t.i), big) for t in subs):
+            r.ob(f, "subtraction only when n >= sizeof(header)")
+        elif subs:
+            ctx.fail(r, f, "header size subtracted without the size test", subs[0].line, "n can wrap below zero")
+
+
 def run(ctx):
     ctx.guard(rule_r1)
     ctx.guard(rule_r2)
@@ -287,3 +365,5 @@ def run(ctx):
     ctx.guard(rule_r4)
     ctx.guard(rule_r5)
     ctx.guard(rule_ws)
+    ctx.guard(rule_r6)
+    ctx.guard(rule_r8)
